@@ -86,6 +86,31 @@ Proof.
   exact (reject_sound fparse L f toks e (proj1 W) He).
 Qed.
 
+(* the deletion languages that were left out are left out for a reason: each contains a word of the specification *)
+Theorem left_out_deletions_are_ambiguous :
+  forallb (fun p => forallb (fun d => let '(D, w) := snd d in
+                                      matchb D w && match lookup (fst p) specs with Some alts => existsb (fun R => matchb R w) alts | None => false end)
+                            (snd p)) spec_deletions_ambiguous = true.
+Proof. vm_cast_no_check (eq_refl true). Qed.
+
+(* MT204: the layout reads 19 before 20, the specification says 20 then 19: EVERY word of the specification is rejected *)
+Lemma gen_mt204_excluded :
+  match lookup (bs "MT204") specs, lookup (bs "MT204") all_layouts with
+  | Some alts, Some L => forallb (fun R => excludes fp (uses L) 400 L R) alts
+  | _, _ => false
+  end = true.
+Proof. vm_cast_no_check (eq_refl true). Qed.
+
+Theorem mt204_rejects_its_specification : forall L alts, lookup (bs "MT204") all_layouts = Some L -> lookup (bs "MT204") specs = Some alts ->
+  forall fparse toks, spec_lang alts (map fst toks) -> Forall (good_token fparse L) toks ->
+  forall f, lsize L + List.length toks + 1 <= f -> exists e, trun fparse f L toks = Reject e.
+Proof.
+  intros L alts EL HR fparse toks [R [HinR Hm]] Hg f Hf.
+  pose proof gen_mt204_excluded as OK. rewrite HR, EL in OK. rewrite forallb_forall in OK. specialize (OK R HinR).
+  destruct (layout_progress _ L EL) as [PL _].
+  exact (excludes_rejects fparse fp (uses L) 400 L R OK PL toks Hm Hg f Hf).
+Qed.
+
 (* the premises are satisfiable: a parser oracle that answers as [fp] says makes every token good, and a concrete
    MT202 cover text is a word of the specification *)
 Definition model_fparse (ty : bytes) (l : option bytes) (x : bytes) : bool :=
